@@ -433,3 +433,39 @@ def run(repo: Repo, rep: Report) -> None:  # noqa: F811
         ok = bool(computed) or extra
         rep.ob("C05.g-prettyxml-declares-the-prefix-it-writes", rx, "PrettyXMLSerializer.serialize", computed[0] if computed else "declaration of the RDF namespace", ok,
                "declared under the prefix the namespace manager gives it" if ok else "no declaration of the RDF namespace found", node=computed[0] if computed else sf)
+
+
+_run_base3 = run
+
+
+def run(repo: Repo, rep: Report) -> None:  # noqa: F811
+    _run_base3(repo, rep)
+    rep.rule("C05.h-inherited-containers-are-copied-before-they-are-extended",
+             "in the parser modules, a function that sets an attribute of one object from the same-named attribute of ANOTHER object (`current.declared = parent.declared`: per-element "
+             "state inherited down the element stack) and then extends it in place (subscript store, update/append/add) takes a copy: without it the entries made for one element "
+             "leak into the parent and thereby into the following siblings (the in-scope xmlns map of an XMLLiteral: a later sibling loses its declaration)", floor=1)
+    n_sites = 0
+    for modname in sorted(m for m in repo.modules if m.startswith("rdflib.plugins.parsers.")):
+        mod = repo.mod(modname)
+        for q, f in mod.functions():
+            for a in own_nodes(f):
+                if not (isinstance(a, ast.Assign) and len(a.targets) == 1 and isinstance(a.targets[0], ast.Attribute)):
+                    continue
+                t, v = a.targets[0], a.value
+                src = v.func.value if isinstance(v, ast.Call) and isinstance(v.func, ast.Attribute) and v.func.attr == "copy" and not v.args else v
+                copied = src is not v or (isinstance(v, ast.Call) and norm(v.func) in ("dict", "list", "set") and v.args and isinstance(v.args[0], ast.Attribute))
+                if isinstance(v, ast.Call) and norm(v.func) in ("dict", "list", "set") and v.args:
+                    src = v.args[0]
+                if not (isinstance(src, ast.Attribute) and src.attr == t.attr and norm(src.value) != norm(t.value)):
+                    continue
+                owner = norm(t)
+                muts = [n for n in own_nodes(f) if getattr(n, "lineno", 0) > a.lineno and (
+                    (isinstance(n, ast.Assign) and any(isinstance(x, ast.Subscript) and norm(x.value) == owner for x in n.targets)) or
+                    (isinstance(n, ast.Call) and isinstance(n.func, ast.Attribute) and n.func.attr in ("update", "append", "add", "extend", "setdefault", "pop") and norm(n.func.value) == owner))]
+                if not muts:
+                    continue
+                n_sites += 1
+                rep.ob("C05.h-inherited-containers-are-copied-before-they-are-extended", mod, q, a, copied,
+                       "copied, then extended" if copied else "%s aliases %s and is then extended in place (%s): the change is visible through the other object as well" % (owner, norm(src), norm(muts[0])[:50]), node=a)
+    if n_sites == 0:
+        raise AnalysisError("no inherited-and-extended container found in the parser modules (rdfxml literal_element_start was one)")
